@@ -138,6 +138,17 @@ func NewValueObject(fields map[string]*Value) *Value {
 	return &val
 }
 
+// The any-object gets fields of its own: writing a value of another type through it (`set`) must not reach the
+// typed object it was made from (lists and objects among the field values stay shared, as everywhere).
 func (self ValueObject) IntoAnyObject() *Value {
-	return NewValueAnyObject(self.FieldsInternal)
+	fields := make(map[string]*Value, len(self.FieldsInternal))
+	for key, field := range self.FieldsInternal {
+		if field == nil {
+			fields[key] = nil
+			continue
+		}
+		copied := *field
+		fields[key] = &copied
+	}
+	return NewValueAnyObject(fields)
 }
